@@ -334,7 +334,11 @@ func TestRoundsOfExactlyBatchSizeMultiples(t *testing.T) {
 	ev.Guard(t, "TestRoundsOfExactlyBatchSizeMultiples", func() {
 		x := ev.SeedFor("TestRoundsOfExactlyBatchSizeMultiples")
 		next := func() uint64 { x ^= x << 13; x ^= x >> 7; x ^= x << 17; return x }
-		for _, target := range []int{256, 512, 255, 257} {
+		targets := []int{256, 512, 255, 257}
+		if ev.Thorough() {
+			targets = append(targets, 1000)
+		}
+		for _, target := range targets {
 			content := map[string][]byte{}
 			var ops []mptkit.Op
 			nodes := 0
@@ -381,11 +385,11 @@ func TestRoundsOfExactlyBatchSizeMultiples(t *testing.T) {
 				}
 			}
 			mptkit.DropDir(dir)
-			cl := "round-of-exactly-k*256-changed-nodes"
+			cl := "round-of-exactly-k*256-or-1000-changed-nodes"
 			if saved != target {
 				cl = fmt.Sprintf("round-built-for-%d-nodes-saved-%d", target, saved)
 			}
-			ev.Case(fmt.Sprintf("exact/%d", target), target%256 == 0 && saved == target, cl)
+			ev.Case(fmt.Sprintf("exact/%d", target), (target%256 == 0 || target%1000 == 0) && saved == target, cl)
 		}
 	})
 }
